@@ -22,9 +22,9 @@ def harnesses(tier):
 ASSUMPTIONS = [
     'print side of Ref/UniqueId text forms is core::fmt (not encodable): replaced by a harness-side hex printer whose agreement with Display is checked natively on boundary values by the driver',
     'serde_json / bincode / rmp-serde round trips and the allValues.json contract are outside the claim (serde visitors, float text)',
-    'Tags / MaterialColors blobs: see M obligations when present',
+    'Tags / MaterialColors blobs: MIR symbolic execution of encode/decode (M23), bounds as stated per obligation; Vec/BTreeMap/String::from_utf8/slice adapters are contract models',
 ]
-TRUSTED = ['rustc (Kani toolchain)', 'Kani 0.68 / CBMC 6.11 / cadical', 'harness-side hex printer']
+TRUSTED = ['rustc (Kani toolchain)', 'Kani 0.68 / CBMC 6.11 / cadical', 'harness-side hex printer', 'rustc nightly MIR of rbx_types + vlib/mirsym interpreter and models + z3 (M23)']
 RULE = 'each obligation is one Kani proof harness over kani::any() inputs decided by CBMC; non-trivial = kani::cover! witness satisfied'
 
 
@@ -54,13 +54,32 @@ def native_printer_validation():
     return ob
 
 
+def blob_groups(tier):
+    q = tier == 'quick'
+    return [
+        dict(id='M23.materialcolors', desc='MaterialColors blob: decode of every 69-byte blob gives the colours at their slots and re-encodes to the same 63 colour bytes; encode of a map with k set materials writes set colours / defaults at the right slots and decode(encode(m)) has the same colour for all 21 materials; other lengths are errors',
+             bounds='every 69-byte blob; every choice of k <= %d set materials among 21 with symbolic colours; lengths 0, 68, 70' % (2 if q else 3),
+             cases=[dict(what='len', len=n) for n in (0, 68, 70)] + [dict(what='dec')] + [dict(what='enc', k=k) for k in range(0, 3 if q else 4)], budget=900),
+        dict(id='M23.tags', desc='Tags blob: decode splits at NUL, drops empty names, accepts exactly UTF-8 names and re-encodes to the names joined by NUL; encode/decode of NUL-free non-empty UTF-8 names is the identity',
+             bounds='every blob of 0..%d bytes; name lists with lengths %s (all UTF-8 byte sequences)' % (4 if q else 5, '[], [1], [2], [1,1], [2,1], [1,2,1]'),
+             cases=[dict(what='tags_dec', len=n) for n in range(0, 5 if q else 6)] + [dict(what='tags_enc', lens=l) for l in ([], [1], [2], [1, 1], [2, 1], [1, 2, 1], [3], [4])], budget=600),
+    ]
+
+
 def run(tier, seed, t0, only=None):
     gen.build_tools()
     gen.write_kani_tables()
     hs = harnesses(tier)
     if only:
         hs = [h for h in hs if any(h.oid.startswith(o) for o in only)]
-    obs = K.run_harnesses(hs, tier)
+    obs = K.run_harnesses(hs, tier) if hs else []
+    bs = blob_groups(tier)
+    if only:
+        bs = [g for g in bs if any(g['id'].startswith(o) for o in only)]
+    if bs:
+        from ..mirsym import binrun, blobcheck, mirdump
+        mirdump.dump('rbx_types')
+        obs += binrun.run(bs, ('C17',), module=blobcheck, crates=['rbx_types'])
     if not only:
         obs.append(native_printer_validation())
     return C.finish('C17', tier, seed, obs, t0, ASSUMPTIONS, TRUSTED, RULE)
